@@ -118,10 +118,10 @@ def gen(prop, stream, tier, avoid):
             if e == "set_pts":
                 op["via"] = rng.pick(["ctrlpts", "set_ctrlpts", "ctrlptsw", "ctrlpts2d"])
             elif e == "set_delta":
-                op["value"] = rng.pick([0.5, 0.25, 0.2, 0.125])
+                op["value"] = rng.pick([0.5, 0.25, 0.2, 0.125, 0.4, 0.4, 0.3, 0.08, 0.07])
                 op["single"] = rng.chance(0.4)
             elif e == "set_sample":
-                op["value"] = rng.randint(2, 8)
+                op["value"] = rng.pick([2, 2, 3, 4, 5, 6, 7, 8, 12])
                 op["single"] = rng.chance(0.4)
             elif e in ("insert", "remove"):
                 op["via"] = rng.pick(["method", "operations"])
